@@ -31,6 +31,7 @@ ASSUMPTIONS = ['documented option-list shapes: 2-D array: 1-D list of len(sigs) 
 
 AXES = [None, 0, 1, (0, 1), 2, -1, 'x']
 BAD_ENUM = ['bogus', None, 7]
+FALSY = ['', 0, False]       # unknown values that are falsy (added where they are not documented values)
 
 
 def configs(tier):
@@ -285,9 +286,9 @@ RANGE_PROBES['n_cycles@compute_shape_features'] = probe_n_cycles
 
 # --------------------------------------------------------------------------- part D: enumerations
 
-def enum_probe(what, valid, make_call):
+def enum_probe(what, valid, make_call, extra=()):
     def run(ctx):
-        for val in list(valid) + BAD_ENUM:
+        for val in list(valid) + BAD_ENUM + list(extra):
             ok = val in valid
             try:
                 cleanup = make_call(ctx, val)
@@ -474,15 +475,15 @@ def _dims_probe(ctx):
 
 ENUM_PROBES = {}
 for _e in ('compute_shape_features', 'compute_features', 'Bycycle.fit'):
-    ENUM_PROBES['center_extrema@' + _e] = enum_probe('center_extrema at ' + _e, ['peak', 'trough'], _call_center(_e))
+    ENUM_PROBES['center_extrema@' + _e] = enum_probe('center_extrema at ' + _e, ['peak', 'trough'], _call_center(_e), FALSY)
 for _e in ('compute_features', 'compute_burst_features', 'Bycycle.fit'):
     ENUM_PROBES['burst_method@' + _e] = enum_probe('burst_method at ' + _e, ['cycles', 'amp'], _call_method(_e))
 for _e in ('compute_amp_consistency', 'compute_period_consistency', 'recompute_edge'):
-    ENUM_PROBES['direction@' + _e] = enum_probe('direction at ' + _e, ['both', 'next', 'last'], _call_direction(_e))
+    ENUM_PROBES['direction@' + _e] = enum_probe('direction at ' + _e, ['both', 'next', 'last'], _call_direction(_e), FALSY)
 ENUM_PROBES['first_extrema@find_extrema'] = enum_probe('first_extrema at find_extrema', ['peak', 'trough', None], _call_first_extrema)
 ENUM_PROBES['first_extrema@compute_shape_features'] = enum_probe('first_extrema via compute_shape_features (fixed to peak; any override is refused)', [], _call_first_extrema_shape)
 for _e in ('progress_bar', 'compute_features_2d'):
-    ENUM_PROBES['progress@' + _e] = enum_probe('progress at ' + _e, [None, 'tqdm'], _call_progress(_e))
+    ENUM_PROBES['progress@' + _e] = enum_probe('progress at ' + _e, [None, 'tqdm'], _call_progress(_e), FALSY)
 ENUM_PROBES['axis@compute_features_2d'] = enum_probe('axis at compute_features_2d', [0, None], _call_axis(2))
 ENUM_PROBES['axis@compute_features_3d'] = enum_probe('axis at compute_features_3d', [0, 1, (0, 1)], _call_axis(3))
 ENUM_PROBES['dimensionality'] = _dims_probe
